@@ -403,3 +403,323 @@ Theorem C01_RK4_quadrature_converges : forall (q : R -> R) (B4 : R),
   (Rabs (one_step_iter (Phi_RK4 (fun t _ : R => q t) h) h t0 n (y t0) - y (t0 + T)) <= T * C_Simpson B4 * h ^ 4)%R.
 Proof. exact RK4_quadrature_converges_order4. Qed.
 Print Assumptions C01_RK4_quadrature_converges.
+
+(** T10 — the remaining gaps closed: RK4 for general TIME-DEPENDENT, position-dependent scalar fields (all partial
+    derivatives up to total order 4 bounded on the strip: local truncation bound C h^5 DERIVED, constant explicit,
+    hence order 4 with no truncation hypothesis), for the class the tracker's interpolated field belongs to inside a
+    cell and a time bracket (f t x = p t + q t * x, unbounded in x), and RK2 in TWO dimensions for arbitrary
+    time-dependent C2 fields (local bound C h^3 derived, fed into the 2-D Lax-type theorem), also at the level of
+    the rational model's 2-D step.  Each with a closed example (explicit exact solution) showing that the
+    hypotheses are satisfiable.  Remaining hypothesis everywhere: the exact solution is given, not constructed.
+    RK4 in two dimensions stays conditional on its local truncation bound (C01_general_convergence_2d). *)
+From Ladim Require Import Proofs.RK4NonAutonomousProofs Proofs.RK2Truncation2DProofs.
+Section T10.
+Local Open Scope R_scope.
+Theorem C01_RK4_local_truncation_nonautonomous :
+  forall (F : nat -> nat -> R -> R -> R) (B0 B1 B2 B3 B4 t0 T : R),
+  (forall (i j : nat) (t x : R),
+   (i + j < 4)%nat -> t0 <= t <= t0 + T -> differentiable_pt_lim (F i j) t x (F (S i) j t x) (F i (S j) t x)) ->
+  (forall (i j : nat) (t x : R),
+   (i + j <= 4)%nat -> t0 <= t <= t0 + T -> Rabs (F i j t x) <= nBd B0 B1 B2 B3 B4 (i + j)) ->
+  forall y : R -> R,
+  (forall t : R, t0 <= t <= t0 + T -> is_derive y t (F 0%nat 0%nat t (y t))) ->
+  forall s h : R,
+  0 < h ->
+  t0 <= s ->
+  s + h <= t0 + T ->
+  Rabs (y (s + h) - y s - h * Phi_RK4 (F 0%nat 0%nat) h s (y s)) <= C_RK4n B0 B1 B2 B3 B4 * h ^ 5.
+Proof. exact RK4_local_truncation_nonautonomous. Qed.
+Print Assumptions C01_RK4_local_truncation_nonautonomous.
+
+Theorem C01_RK4_converges_nonautonomous :
+  forall (F : nat -> nat -> R -> R -> R) (B0 B1 B2 B3 B4 t0 T : R),
+  (forall (i j : nat) (t x : R),
+   (i + j < 4)%nat -> t0 <= t <= t0 + T -> differentiable_pt_lim (F i j) t x (F (S i) j t x) (F i (S j) t x)) ->
+  (forall (i j : nat) (t x : R),
+   (i + j <= 4)%nat -> t0 <= t <= t0 + T -> Rabs (F i j t x) <= nBd B0 B1 B2 B3 B4 (i + j)) ->
+  forall y : R -> R,
+  (forall t : R, t0 <= t <= t0 + T -> is_derive y t (F 0%nat 0%nat t (y t))) ->
+  forall (n : nat) (h : R),
+  0 < h ->
+  INR n * h = T ->
+  Rabs (one_step_iter (Phi_RK4 (F 0%nat 0%nat) h) h t0 n (y t0) - y (t0 + T)) <=
+  exp (T * Lip_RK4 h B1) * T * C_RK4n B0 B1 B2 B3 B4 * h ^ 4.
+Proof. exact RK4_converges_nonautonomous. Qed.
+Print Assumptions C01_RK4_converges_nonautonomous.
+
+Theorem C01_RK4_converges_affine :
+  forall (P Q : nat -> R -> R) (Pm Qm Ym t0 T : R),
+  (forall (k : nat) (t : R), (k < 4)%nat -> t0 <= t <= t0 + T -> is_derive (P k) t (P (S k) t)) ->
+  (forall (k : nat) (t : R), (k < 4)%nat -> t0 <= t <= t0 + T -> is_derive (Q k) t (Q (S k) t)) ->
+  (forall (k : nat) (t : R), (k <= 4)%nat -> t0 <= t <= t0 + T -> Rabs (P k t) <= Pm) ->
+  (forall (k : nat) (t : R), (k <= 4)%nat -> t0 <= t <= t0 + T -> Rabs (Q k t) <= Qm) ->
+  forall (y : R -> R) (h : R) (n : nat),
+  0 < h ->
+  INR n * h = T ->
+  h * B_aff Pm Qm Ym <= 1 ->
+  (forall t : R, t0 <= t <= t0 + T -> is_derive y t (P 0%nat t + Q 0%nat t * y t)) ->
+  (forall t : R, t0 <= t <= t0 + T -> Rabs (y t) <= Ym) ->
+  Rabs (one_step_iter (Phi_RK4 (fun t x : R => P 0%nat t + Q 0%nat t * x) h) h t0 n (y t0) - y (t0 + T)) <=
+  exp (T * Lip_RK4 h Qm) * T *
+  C_RK4n (B_aff Pm Qm Ym) (B_aff Pm Qm Ym) (B_aff Pm Qm Ym) (B_aff Pm Qm Ym) (B_aff Pm Qm Ym) * 
+  h ^ 4.
+Proof. exact RK4_converges_affine. Qed.
+Print Assumptions C01_RK4_converges_affine.
+
+Theorem C01_RK4_cos_sin_example :
+  forall (n : nat) (h T : R),
+  0 < h ->
+  INR n * h = T ->
+  Rabs (one_step_iter (Phi_RK4 (fun t x : R => cos t * sin x) h) h 0 n (PI / 2) - 2 * atan (exp (sin T))) <=
+  exp (T * Lip_RK4 h 1) * T * (91 / 36) * h ^ 4.
+Proof. exact RK4_cos_sin_example. Qed.
+Print Assumptions C01_RK4_cos_sin_example.
+
+Theorem C01_RK4_cos_x_example :
+  forall (n : nat) (h T : R),
+  0 < h ->
+  h <= / 6 ->
+  INR n * h = T ->
+  Rabs (one_step_iter (Phi_RK4 (fun t x : R => 0 + cos t * x) h) h 0 n 1 - exp (sin T)) <=
+  exp (T * Lip_RK4 h 1) * T * (445445 / 96) * h ^ 4.
+Proof. exact RK4_cos_x_example. Qed.
+Print Assumptions C01_RK4_cos_x_example.
+
+Theorem C01_RK2_local_truncation_2d :
+  forall
+    (u ut ux uy utt utx uty uxt uxx uxy uyt uyx uyy v vt vx vy vtt vtx vty vxt vxx vxy vyt vyx
+     vyy : R -> R -> R -> R)
+    (A0 At Ax Ay Att Atx Aty Axt Axx Axy Ayt Ayx Ayy B0 Bt Bx By Btt Btx Bty Bxt Bxx Bxy Byt Byx Byy : R),
+  (forall t x y : R, D3 u t x y (ut t x y) (ux t x y) (uy t x y)) ->
+  (forall t x y : R, D3 ut t x y (utt t x y) (utx t x y) (uty t x y)) ->
+  (forall t x y : R, D3 ux t x y (uxt t x y) (uxx t x y) (uxy t x y)) ->
+  (forall t x y : R, D3 uy t x y (uyt t x y) (uyx t x y) (uyy t x y)) ->
+  (forall t x y : R, D3 v t x y (vt t x y) (vx t x y) (vy t x y)) ->
+  (forall t x y : R, D3 vt t x y (vtt t x y) (vtx t x y) (vty t x y)) ->
+  (forall t x y : R, D3 vx t x y (vxt t x y) (vxx t x y) (vxy t x y)) ->
+  (forall t x y : R, D3 vy t x y (vyt t x y) (vyx t x y) (vyy t x y)) ->
+  (forall t x y : R, Rabs (u t x y) <= A0) ->
+  (forall t x y : R, Rabs (ut t x y) <= At) ->
+  (forall t x y : R, Rabs (ux t x y) <= Ax) ->
+  (forall t x y : R, Rabs (uy t x y) <= Ay) ->
+  (forall t x y : R, Rabs (utt t x y) <= Att) ->
+  (forall t x y : R, Rabs (utx t x y) <= Atx) ->
+  (forall t x y : R, Rabs (uty t x y) <= Aty) ->
+  (forall t x y : R, Rabs (uxt t x y) <= Axt) ->
+  (forall t x y : R, Rabs (uxx t x y) <= Axx) ->
+  (forall t x y : R, Rabs (uxy t x y) <= Axy) ->
+  (forall t x y : R, Rabs (uyt t x y) <= Ayt) ->
+  (forall t x y : R, Rabs (uyx t x y) <= Ayx) ->
+  (forall t x y : R, Rabs (uyy t x y) <= Ayy) ->
+  (forall t x y : R, Rabs (v t x y) <= B0) ->
+  (forall t x y : R, Rabs (vt t x y) <= Bt) ->
+  (forall t x y : R, Rabs (vx t x y) <= Bx) ->
+  (forall t x y : R, Rabs (vy t x y) <= By) ->
+  (forall t x y : R, Rabs (vtt t x y) <= Btt) ->
+  (forall t x y : R, Rabs (vtx t x y) <= Btx) ->
+  (forall t x y : R, Rabs (vty t x y) <= Bty) ->
+  (forall t x y : R, Rabs (vxt t x y) <= Bxt) ->
+  (forall t x y : R, Rabs (vxx t x y) <= Bxx) ->
+  (forall t x y : R, Rabs (vxy t x y) <= Bxy) ->
+  (forall t x y : R, Rabs (vyt t x y) <= Byt) ->
+  (forall t x y : R, Rabs (vyx t x y) <= Byx) ->
+  (forall t x y : R, Rabs (vyy t x y) <= Byy) ->
+  forall (sol : R -> pt) (h t0 T : R),
+  0 < h ->
+  (forall t : R,
+   t0 <= t <= t0 + T -> is_derive (fun r : R_AbsRing => fst (sol r)) t (u t (fst (sol t)) (snd (sol t)))) ->
+  (forall t : R,
+   t0 <= t <= t0 + T -> is_derive (fun r : R_AbsRing => snd (sol r)) t (v t (fst (sol t)) (snd (sol t)))) ->
+  forall s : R,
+  t0 <= s ->
+  s + h <= t0 + T ->
+  norm2 (psub (psub (sol (s + h)) (sol s)) (pscale2 h h (Phi_RK2_2d (field2 u v) h h h s (sol s)))) <=
+  C_RK2_2d A0 At Ax Ay B0 Bt Bx By Att Atx Aty Axt Axx Axy Ayt Ayx Ayy Btt Btx Bty Bxt Bxx Bxy Byt Byx Byy *
+  h ^ 3.
+Proof. exact RK2_local_truncation_2d. Qed.
+Print Assumptions C01_RK2_local_truncation_2d.
+
+Theorem C01_RK2_converges_general_2d :
+  forall
+    (u ut ux uy utt utx uty uxt uxx uxy uyt uyx uyy v vt vx vy vtt vtx vty vxt vxx vxy vyt vyx
+     vyy : R -> R -> R -> R)
+    (A0 At Ax Ay Att Atx Aty Axt Axx Axy Ayt Ayx Ayy B0 Bt Bx By Btt Btx Bty Bxt Bxx Bxy Byt Byx Byy : R),
+  (forall t x y : R, D3 u t x y (ut t x y) (ux t x y) (uy t x y)) ->
+  (forall t x y : R, D3 ut t x y (utt t x y) (utx t x y) (uty t x y)) ->
+  (forall t x y : R, D3 ux t x y (uxt t x y) (uxx t x y) (uxy t x y)) ->
+  (forall t x y : R, D3 uy t x y (uyt t x y) (uyx t x y) (uyy t x y)) ->
+  (forall t x y : R, D3 v t x y (vt t x y) (vx t x y) (vy t x y)) ->
+  (forall t x y : R, D3 vt t x y (vtt t x y) (vtx t x y) (vty t x y)) ->
+  (forall t x y : R, D3 vx t x y (vxt t x y) (vxx t x y) (vxy t x y)) ->
+  (forall t x y : R, D3 vy t x y (vyt t x y) (vyx t x y) (vyy t x y)) ->
+  (forall t x y : R, Rabs (u t x y) <= A0) ->
+  (forall t x y : R, Rabs (ut t x y) <= At) ->
+  (forall t x y : R, Rabs (ux t x y) <= Ax) ->
+  (forall t x y : R, Rabs (uy t x y) <= Ay) ->
+  (forall t x y : R, Rabs (utt t x y) <= Att) ->
+  (forall t x y : R, Rabs (utx t x y) <= Atx) ->
+  (forall t x y : R, Rabs (uty t x y) <= Aty) ->
+  (forall t x y : R, Rabs (uxt t x y) <= Axt) ->
+  (forall t x y : R, Rabs (uxx t x y) <= Axx) ->
+  (forall t x y : R, Rabs (uxy t x y) <= Axy) ->
+  (forall t x y : R, Rabs (uyt t x y) <= Ayt) ->
+  (forall t x y : R, Rabs (uyx t x y) <= Ayx) ->
+  (forall t x y : R, Rabs (uyy t x y) <= Ayy) ->
+  (forall t x y : R, Rabs (v t x y) <= B0) ->
+  (forall t x y : R, Rabs (vt t x y) <= Bt) ->
+  (forall t x y : R, Rabs (vx t x y) <= Bx) ->
+  (forall t x y : R, Rabs (vy t x y) <= By) ->
+  (forall t x y : R, Rabs (vtt t x y) <= Btt) ->
+  (forall t x y : R, Rabs (vtx t x y) <= Btx) ->
+  (forall t x y : R, Rabs (vty t x y) <= Bty) ->
+  (forall t x y : R, Rabs (vxt t x y) <= Bxt) ->
+  (forall t x y : R, Rabs (vxx t x y) <= Bxx) ->
+  (forall t x y : R, Rabs (vxy t x y) <= Bxy) ->
+  (forall t x y : R, Rabs (vyt t x y) <= Byt) ->
+  (forall t x y : R, Rabs (vyx t x y) <= Byx) ->
+  (forall t x y : R, Rabs (vyy t x y) <= Byy) ->
+  forall (sol : R -> pt) (h t0 T : R),
+  0 < h ->
+  (forall t : R,
+   t0 <= t <= t0 + T -> is_derive (fun r : R_AbsRing => fst (sol r)) t (u t (fst (sol t)) (snd (sol t)))) ->
+  (forall t : R,
+   t0 <= t <= t0 + T -> is_derive (fun r : R_AbsRing => snd (sol r)) t (v t (fst (sol t)) (snd (sol t)))) ->
+  forall n : nat,
+  INR n * h = T ->
+  norm2 (psub (one_step_iter2 (Phi_RK2_2d (field2 u v) h h h) h h h t0 n (sol t0)) (sol (t0 + T))) <=
+  exp (T * Lip_RK2 h (L_2d Ax Ay Bx By)) * T *
+  C_RK2_2d A0 At Ax Ay B0 Bt Bx By Att Atx Aty Axt Axx Axy Ayt Ayx Ayy Btt Btx Bty Bxt Bxx Bxy Byt Byx Byy *
+  h ^ 2.
+Proof. exact RK2_converges_general_2d. Qed.
+Print Assumptions C01_RK2_converges_general_2d.
+
+Theorem C01_RK2_converges_general_2d_metric :
+  forall
+    (u ut ux uy utt utx uty uxt uxx uxy uyt uyx uyy v vt vx vy vtt vtx vty vxt vxx vxy vyt vyx
+     vyy : R -> R -> R -> R)
+    (A0 At Ax Ay Att Atx Aty Axt Axx Axy Ayt Ayx Ayy B0 Bt Bx By Btt Btx Bty Bxt Bxx Bxy Byt Byx Byy : R),
+  (forall t x y : R, D3 u t x y (ut t x y) (ux t x y) (uy t x y)) ->
+  (forall t x y : R, D3 ut t x y (utt t x y) (utx t x y) (uty t x y)) ->
+  (forall t x y : R, D3 ux t x y (uxt t x y) (uxx t x y) (uxy t x y)) ->
+  (forall t x y : R, D3 uy t x y (uyt t x y) (uyx t x y) (uyy t x y)) ->
+  (forall t x y : R, D3 v t x y (vt t x y) (vx t x y) (vy t x y)) ->
+  (forall t x y : R, D3 vt t x y (vtt t x y) (vtx t x y) (vty t x y)) ->
+  (forall t x y : R, D3 vx t x y (vxt t x y) (vxx t x y) (vxy t x y)) ->
+  (forall t x y : R, D3 vy t x y (vyt t x y) (vyx t x y) (vyy t x y)) ->
+  (forall t x y : R, Rabs (u t x y) <= A0) ->
+  (forall t x y : R, Rabs (ut t x y) <= At) ->
+  (forall t x y : R, Rabs (ux t x y) <= Ax) ->
+  (forall t x y : R, Rabs (uy t x y) <= Ay) ->
+  (forall t x y : R, Rabs (utt t x y) <= Att) ->
+  (forall t x y : R, Rabs (utx t x y) <= Atx) ->
+  (forall t x y : R, Rabs (uty t x y) <= Aty) ->
+  (forall t x y : R, Rabs (uxt t x y) <= Axt) ->
+  (forall t x y : R, Rabs (uxx t x y) <= Axx) ->
+  (forall t x y : R, Rabs (uxy t x y) <= Axy) ->
+  (forall t x y : R, Rabs (uyt t x y) <= Ayt) ->
+  (forall t x y : R, Rabs (uyx t x y) <= Ayx) ->
+  (forall t x y : R, Rabs (uyy t x y) <= Ayy) ->
+  (forall t x y : R, Rabs (v t x y) <= B0) ->
+  (forall t x y : R, Rabs (vt t x y) <= Bt) ->
+  (forall t x y : R, Rabs (vx t x y) <= Bx) ->
+  (forall t x y : R, Rabs (vy t x y) <= By) ->
+  (forall t x y : R, Rabs (vtt t x y) <= Btt) ->
+  (forall t x y : R, Rabs (vtx t x y) <= Btx) ->
+  (forall t x y : R, Rabs (vty t x y) <= Bty) ->
+  (forall t x y : R, Rabs (vxt t x y) <= Bxt) ->
+  (forall t x y : R, Rabs (vxx t x y) <= Bxx) ->
+  (forall t x y : R, Rabs (vxy t x y) <= Bxy) ->
+  (forall t x y : R, Rabs (vyt t x y) <= Byt) ->
+  (forall t x y : R, Rabs (vyx t x y) <= Byx) ->
+  (forall t x y : R, Rabs (vyy t x y) <= Byy) ->
+  forall (sol : R -> pt) (hx hy ht t0 T : R),
+  0 < hx ->
+  0 < hy ->
+  0 < ht ->
+  (forall t : R,
+   t0 <= t <= t0 + T ->
+   is_derive (fun r : R_AbsRing => fst (sol r)) t (hx / ht * u t (fst (sol t)) (snd (sol t)))) ->
+  (forall t : R,
+   t0 <= t <= t0 + T ->
+   is_derive (fun r : R_AbsRing => snd (sol r)) t (hy / ht * v t (fst (sol t)) (snd (sol t)))) ->
+  forall n : nat,
+  INR n * ht = T ->
+  norm2 (psub (one_step_iter2 (Phi_RK2_2d (field2 u v) hx hy ht) hx hy ht t0 n (sol t0)) (sol (t0 + T))) <=
+  exp (T * (Rmax hx hy / ht * Lip_RK2 (Rmax hx hy) (L_2d Ax Ay Bx By))) * T *
+  C_RK2_2d_metric (hx / ht) (hy / ht) A0 At Ax Ay B0 Bt Bx By Att Atx Aty Axt Axx Axy Ayt Ayx Ayy Btt Btx Bty
+    Bxt Bxx Bxy Byt Byx Byy * ht ^ 2.
+Proof. exact RK2_converges_general_2d_metric. Qed.
+Print Assumptions C01_RK2_converges_general_2d_metric.
+
+Theorem C01_model_RK2_converges_general_2d :
+  forall
+    (u ut ux uy utt utx uty uxt uxx uxy uyt uyx uyy v vt vx vy vtt vtx vty vxt vxx vxy vyt vyx
+     vyy : R -> R -> R -> R)
+    (A0 At Ax Ay Att Atx Aty Axt Axx Axy Ayt Ayx Ayy B0 Bt Bx By Btt Btx Bty Bxt Bxx Bxy Byt Byx Byy : R),
+  (forall t x y : R, D3 u t x y (ut t x y) (ux t x y) (uy t x y)) ->
+  (forall t x y : R, D3 ut t x y (utt t x y) (utx t x y) (uty t x y)) ->
+  (forall t x y : R, D3 ux t x y (uxt t x y) (uxx t x y) (uxy t x y)) ->
+  (forall t x y : R, D3 uy t x y (uyt t x y) (uyx t x y) (uyy t x y)) ->
+  (forall t x y : R, D3 v t x y (vt t x y) (vx t x y) (vy t x y)) ->
+  (forall t x y : R, D3 vt t x y (vtt t x y) (vtx t x y) (vty t x y)) ->
+  (forall t x y : R, D3 vx t x y (vxt t x y) (vxx t x y) (vxy t x y)) ->
+  (forall t x y : R, D3 vy t x y (vyt t x y) (vyx t x y) (vyy t x y)) ->
+  (forall t x y : R, Rabs (u t x y) <= A0) ->
+  (forall t x y : R, Rabs (ut t x y) <= At) ->
+  (forall t x y : R, Rabs (ux t x y) <= Ax) ->
+  (forall t x y : R, Rabs (uy t x y) <= Ay) ->
+  (forall t x y : R, Rabs (utt t x y) <= Att) ->
+  (forall t x y : R, Rabs (utx t x y) <= Atx) ->
+  (forall t x y : R, Rabs (uty t x y) <= Aty) ->
+  (forall t x y : R, Rabs (uxt t x y) <= Axt) ->
+  (forall t x y : R, Rabs (uxx t x y) <= Axx) ->
+  (forall t x y : R, Rabs (uxy t x y) <= Axy) ->
+  (forall t x y : R, Rabs (uyt t x y) <= Ayt) ->
+  (forall t x y : R, Rabs (uyx t x y) <= Ayx) ->
+  (forall t x y : R, Rabs (uyy t x y) <= Ayy) ->
+  (forall t x y : R, Rabs (v t x y) <= B0) ->
+  (forall t x y : R, Rabs (vt t x y) <= Bt) ->
+  (forall t x y : R, Rabs (vx t x y) <= Bx) ->
+  (forall t x y : R, Rabs (vy t x y) <= By) ->
+  (forall t x y : R, Rabs (vtt t x y) <= Btt) ->
+  (forall t x y : R, Rabs (vtx t x y) <= Btx) ->
+  (forall t x y : R, Rabs (vty t x y) <= Bty) ->
+  (forall t x y : R, Rabs (vxt t x y) <= Bxt) ->
+  (forall t x y : R, Rabs (vxx t x y) <= Bxx) ->
+  (forall t x y : R, Rabs (vxy t x y) <= Bxy) ->
+  (forall t x y : R, Rabs (vyt t x y) <= Byt) ->
+  (forall t x y : R, Rabs (vyx t x y) <= Byx) ->
+  (forall t x y : R, Rabs (vyy t x y) <= Byy) ->
+  forall (vel : Q -> Q -> Q -> Q * Q) (dtdx dtdy x0 y0 : Q) (sol : R -> pt) (ht t0 T : R) (n : nat),
+  0 < Q2R dtdx ->
+  0 < Q2R dtdy ->
+  0 < ht ->
+  INR n * ht = T ->
+  (forall (k : nat) (s x y : Q), Q2R (fst (vel s x y)) = u (t0 + INR k * ht + Q2R s * ht) (Q2R x) (Q2R y)) ->
+  (forall (k : nat) (s x y : Q), Q2R (snd (vel s x y)) = v (t0 + INR k * ht + Q2R s * ht) (Q2R x) (Q2R y)) ->
+  (Q2R x0, Q2R y0) = sol t0 ->
+  (forall t : R,
+   t0 <= t <= t0 + T ->
+   is_derive (fun r : R_AbsRing => fst (sol r)) t (Q2R dtdx / ht * u t (fst (sol t)) (snd (sol t)))) ->
+  (forall t : R,
+   t0 <= t <= t0 + T ->
+   is_derive (fun r : R_AbsRing => snd (sol r)) t (Q2R dtdy / ht * v t (fst (sol t)) (snd (sol t)))) ->
+  norm2 (psub (Q2R2 (ConvergenceProofs.rk_iter vel dtdx dtdy tab_RK2 n x0 y0)) (sol (t0 + T))) <=
+  exp (T * (Rmax (Q2R dtdx) (Q2R dtdy) / ht * Lip_RK2 (Rmax (Q2R dtdx) (Q2R dtdy)) (L_2d Ax Ay Bx By))) * T *
+  C_RK2_2d_metric (Q2R dtdx / ht) (Q2R dtdy / ht) A0 At Ax Ay B0 Bt Bx By Att Atx Aty Axt Axx Axy Ayt Ayx Ayy
+    Btt Btx Bty Bxt Bxx Bxy Byt Byx Byy * ht ^ 2.
+Proof. exact model_RK2_converges_general_2d. Qed.
+Print Assumptions C01_model_RK2_converges_general_2d.
+
+Theorem C01_RK2_2d_example_coupled :
+  forall (n : nat) (h T : R),
+  0 < h ->
+  INR n * h = T ->
+  norm2
+    (psub (one_step_iter2 (Phi_RK2_2d (field2 ex_u ex_v) h h h) h h h 0 n (PI / 4, - (PI / 4)))
+       (sin T + atan (exp (2 * T)), sin T - atan (exp (2 * T)))) <=
+  exp (T * Lip_RK2 h 2) * T * (53 / 8) * h ^ 2.
+Proof. exact RK2_2d_example_coupled. Qed.
+Print Assumptions C01_RK2_2d_example_coupled.
+
+End T10.
